@@ -4,6 +4,8 @@
 //! trusted: axiom_u8_32_key_model: [u8;32] hashes and compares lawfully (vstd obeys_key_model); new_hash_set() is an external_body wrapper for LDK's hash_tables::new_hash_set (returns an empty set); foreign payload types (StaleExpiration, Retry, RouteParametersConfig, RetryableInvoiceRequest, RouteParameters, InvoiceRequest, StaticInvoice, PaymentAttempts, PaymentParameters, PaidBolt12Invoice, Duration) are opaque external_body structs; Path is a stub {v, f} whose final_value_msat()/fee_msat() are external_body pure accessors
 //! trusted: rule R7 splits or-pattern match arms into one arm per alternative
 //! trusted: R15 (deep slice): remove_stale_payments runs a retain closure under two mutexes; the unit extracts the tick / keep statement of the Fulfilled arm verbatim as a function of (no_remaining_entries, the tick counter); the scan of pending events that computes no_remaining_entries is dropped and not claimed
+//! trusted: R15 (deep slice): OutboundPayments::fail_htlc decodes the onion failure and works on a HashMap entry under a mutex; the unit extracts the whole per-payment block of the Occupied arm verbatim as a function of the payment (checked against the proved contracts of remove / is_fulfilled / mark_abandoned above); `payment.get()/get_mut()` become the reference itself, `payment.remove()` sets a flag, `return;` returns None (R5); is_auto_retryable_now / insert_previously_failed_* are external_body (retry strategy opaque; frame assumed); Event reduced to PaymentFailed; the path events built afterwards are dropped and not claimed
+//! assume: fail_htlc: a failure attributed to a blinded path carries no short_channel_id and the failed path has a blinded tail (debug_asserts on decode_onion_failure's result)
 //! assume: callers keep the representation invariant pending_amt_msat >= value of every in-flight path (and pending_fee_msat >= its fee); remove()/insert() are not called on pre-HTLC states (LDK's debug_assert!(false) arms)
 use vstd::prelude::*;
 use std::collections::HashSet;
@@ -217,6 +219,85 @@ impl PendingOutboundPayment {
     *timer_ticks_without_htlcs = 0;
 //@with
     
+//@end
+
+// ---- a failed HTLC: when the whole payment is reported PaymentFailed (deep R15 slice of OutboundPayments::fail_htlc) ----
+pub struct BlindedTail {}
+pub struct FailPath { pub p: Path, pub blinded_tail: Option<BlindedTail> }
+#[derive(Clone, Copy)] pub struct PaymentId(pub [u8; 32]);
+pub enum Event { PaymentFailed { payment_id: PaymentId, payment_hash: Option<PaymentHash>, reason: Option<PaymentFailureReason> } }
+impl PendingOutboundPayment {
+//@extract lightning/src/ln/outbound_payment.rs :: impl PendingOutboundPayment :: fn remaining_parts
+//@r7
+//@ret r
+//@ensures A
+    r == self.privs().len(), (self.privs().len() == 0) == (self.privs() =~= Set::<[u8; 32]>::empty()),
+//@at body_start
+    proof { axiom_u8_32_key_model(); }
+//@end
+    // retry bookkeeping: an uninterpreted yes/no (Retry strategies and attempt counters are opaque here); only a Retryable payment can be retryable
+    #[verifier::external_body] pub fn is_auto_retryable_now(&self) -> (r: bool) ensures r ==> (*self) is Retryable { unimplemented!() }
+    // both only push onto payment_params of a Retryable payment (frame assumed: variant, parts, hash, amounts untouched)
+    #[verifier::external_body] pub fn insert_previously_failed_scid(&mut self, scid: u64) ensures *final(self) == *old(self) { unimplemented!() }
+    #[verifier::external_body] pub fn insert_previously_failed_blinded_path(&mut self, blinded_tail: &BlindedTail) ensures *final(self) == *old(self) { unimplemented!() }
+}
+//@extract lightning/src/ln/outbound_payment.rs :: impl OutboundPayments :: fn fail_htlc
+//@strip events
+//@slice R15
+    if let hash_map::Entry::Occupied(mut payment) = outbounds.entry(*payment_id) { $body:any is_retryable_now } else {
+//@with
+    // returns None where the source returns early (duplicate or post-completion failure: no event, nothing removed)
+    fn fail_htlc_on_payment(payment: &mut PendingOutboundPayment, session_priv_bytes: [u8; 32], path: &FailPath, short_channel_id: Option<u64>, failed_within_blinded_path: bool,
+        payment_is_probe: bool, payment_failed_permanently: bool, payment_id: &PaymentId, full_failure_ev_: Option<Event>, removed: &mut bool) -> (Option<bool>, Option<Event>) {
+        let mut full_failure_ev = full_failure_ev_;
+        $body
+        (Some(is_retryable_now), full_failure_ev)
+    }
+//@rw R5 *
+    payment.get_mut()
+//@with
+    payment
+//@rw R5 *
+    payment.get()
+//@with
+    (&*payment)
+//@rw R5
+    payment.remove();
+//@with
+    *removed = true;
+//@rw R5 *
+    return;
+//@with
+    return (None, full_failure_ev);
+//@rw R5
+    Some(&path)
+//@with
+    Some(&path.p)
+//@ret r
+//@requires
+    !*old(removed), full_failure_ev_ is None,
+    // what decode_onion_failure reports (the code's two debug_asserts): a failure inside a blinded path names no channel and the path has a blinded tail
+    failed_within_blinded_path ==> short_channel_id is None && path.blinded_tail is Some,
+    old(payment).has_htlcs_state(),
+    (*old(payment)) is Retryable && old(payment).privs().contains(session_priv_bytes) ==>
+        old(payment)->Retryable_pending_amt_msat >= path.p.v && (old(payment)->Retryable_pending_fee_msat is Some ==> old(payment)->Retryable_pending_fee_msat->Some_0 >= path.p.f),
+//@ensures P C03 PaymentFailed-is-reported-only-for-a-payment-that-was-never-fulfilled-is-abandoned-and-has-no-part-left-and-then-the-payment-is-forgotten
+    r.1 is Some ==> !((*old(payment)) is Fulfilled) && (*final(payment)) is Abandoned && final(payment).privs() =~= Set::<[u8; 32]>::empty()
+        && old(payment).privs().contains(session_priv_bytes) && *final(removed) && !payment_is_probe,
+    *final(removed) ==> (*final(payment)) is Abandoned && final(payment).privs() =~= Set::<[u8; 32]>::empty(),
+    // a fulfilled payment is never turned into anything else by a late failure, and a duplicate failure changes nothing
+    (*old(payment)) is Fulfilled ==> (*final(payment)) is Fulfilled && r.0 is None && r.1 is None && !*final(removed),
+    !old(payment).privs().contains(session_priv_bytes) ==> r.0 is None && r.1 is None && !*final(removed),
+    // the last part of an abandoned (or now abandoned) payment always produces the terminal event
+    r.0 is Some && (*final(payment)) is Abandoned && final(payment).privs() =~= Set::<[u8; 32]>::empty() && !payment_is_probe ==> r.1 is Some,
+//@mutant payment_failed_reported_while_parts_remain
+    if payment.get().remaining_parts() == 0 {
+//@with
+    if payment.get().remaining_parts() <= 1 {
+//@mutant failure_after_fulfilment_abandons_the_payment
+    if payment.get().is_fulfilled() {
+//@with
+    if false {
 //@end
 }
 fn main() {}
